@@ -92,7 +92,7 @@ def gen_probs(rng, n, kind=None):
 
 
 def gen_spec(rng, nmin=1, nmax=3, amax=3, allow_log=True, allow_expl=True, allow_names=True,
-             klasses=('str', 'int', 'strtuple'), max_ss=64):
+             klasses=('str', 'int', 'strtuple'), max_ss=64, prob_kinds=None):
     n = rng.randint(nmin, nmax)
     klass = rng.choice(list(klasses))
     # heterogeneous alphabets: each variable draws a subset of the ranks
@@ -138,7 +138,7 @@ def gen_spec(rng, nmin=1, nmax=3, amax=3, allow_log=True, allow_expl=True, allow
         rest = [o for o in full if o not in support]
         if rest:
             zeros = rng.sample(rest, rng.randint(1, min(2, len(rest))))
-    probs = gen_probs(rng, len(support))
+    probs = gen_probs(rng, len(support), rng.choice(prob_kinds) if prob_kinds else None)
     outcomes = support + zeros
     pmf = probs + [0.0] * len(zeros)
     order = list(range(len(outcomes)))
